@@ -42,21 +42,42 @@ LEVEL_NOTE = ('Strength: kernel. The runtime hash function is not modelled; seed
 SEEDS_QUICK = ['1', '2', '3']
 SEEDS_THOROUGH = [str(i) for i in range(1, 17)]
 
-SET_FORMULAS = ['{$%s, "x", "yy"}', 'set(str(r.id) + "k" for r in %s.all)', 'frozenset(["a", "bb", str($%s)])',
-                '{"b": 1, "a": str($%s)}', '{str($%s), "q", "zz", "www"}']
+# @C: a column of the row's table, @T: the table.  Every set has >= 3 multi-character string elements (so that the
+# iteration order really varies with the hash seed); nested hashables: sets of frozensets / of tuples, mixed strings
+# and numbers, frozensets, dicts with set values, sets inside lists and tuples.
+SET_FORMULAS = [
+  '{$@C, "x", "yy"}', 'set(str(r.id) + "k" for r in @T.all)', 'frozenset(["a", "bb", str($@C)])',
+  '{"b": 1, "a": str($@C)}', '{str($@C), "q", "zz", "www"}',
+  '{frozenset(("ab" + str(r.id), "cd" + str(r.id), "xy")) for r in @T.all} | {frozenset(("mn", "op")), frozenset(("qr", "st", "uv"))}',
+  'set(frozenset((str($@C), "k%d" % i, "zz%d" % (i * 7))) for i in range(4))',
+  'frozenset([frozenset(["ab", "cd"]), frozenset(["ef", str($@C)]), frozenset(["gh", "ij", "kl"])])',
+  '{("ab", str($@C)), ("cd", "ef"), ("gh", 1), ("ij", "kl", "mn")}',
+  '{"abc", "de", "fgh", 3, 2.5, None, str($@C)}',
+  '{"k1": {"ab", "cd", str($@C)}, "k2": {"ef", "gh", "ij"}, "k3": frozenset(["kl", "mn", "op"])}',
+  '[{"ab", "cd", "ef"}, ({"gh", "ij", str($@C)}, 1), frozenset(["kl", "mn", "op"])]',
+  '({"ab", "cd", "ef", str($@C)}, "t")',
+  '{frozenset([("ab", 1), ("cd", 2)]), frozenset([("ef", 3), (str($@C), 4)]), frozenset([("gh", 5)])}',
+]
+SET_TYPES = ['Any', 'Any', 'Text', 'Text', 'Int', 'Numeric', 'Choice', 'Date']
 
 
 class Gen30(c05lib.Gen05):
-  """The C05 generator plus formulas that RETURN sets / frozensets / dicts of strings."""
+  """The C05 generator plus formulas that RETURN sets / frozensets / dicts / lists containing sets, in Any, Text and
+  typed columns."""
   def formula(self, meta, tref, level):
     r = self.r
-    if r.random() < 0.2:
+    if r.random() < 0.3:
       own = self.lower_cols(meta, tref, level)
       c1 = r.choice(own)['colId'] if own else 'id'
-      f = r.choice(SET_FORMULAS)
       t = meta.tables[tref]['tableId']
-      return f % (t if '.all' in f else c1)
+      return r.choice(SET_FORMULAS).replace('@C', c1).replace('@T', t)
     return super(Gen30, self).formula(meta, tref, level)
+
+  def gen(self, kind, meta):
+    a = super(Gen30, self).gen(kind, meta)
+    if kind == 'addformula' and a and a[0] == 'AddColumn' and any(m in a[3].get('formula', '') for m in ('frozenset', '{')):
+      a[3]['type'] = self.r.choice(SET_TYPES)
+    return a
 
 
 def make_history(seed, nb, kind):
@@ -223,6 +244,36 @@ def choicelist_order(x, y):
   return bool(pairs) and all(k in pairs for k in others)
 
 
+def diff_leaves(x, y):
+  if isinstance(x, dict) and isinstance(y, dict) and set(x) == set(y):
+    for k in x:
+      for p in diff_leaves(x[k], y[k]):
+        yield p
+  elif isinstance(x, list) and isinstance(y, list) and len(x) == len(y):
+    for a, b in zip(x, y):
+      for p in diff_leaves(a, b):
+        yield p
+  elif x != y:
+    yield (x, y)
+
+
+def set_nested_in_container_text(x, y):
+  """Every differing value is a TEXT (cell text or alternative text) that displays a list / tuple / dict which
+  CONTAINS sets: str() of a container calls repr() of the sets inside it (the repairs df84fa7 / 71fe06e order the
+  elements of a value that is itself a set)."""
+  found = False
+  for a, b in diff_leaves(x, y):
+    if not (isinstance(a, str) and isinstance(b, str)):
+      return False
+    t = a.lstrip()
+    bare_set = (t.startswith('{') and normalise_set_displays(t) != t and t.count('{') == 1 and t.endswith('}')) \
+               or t.startswith('frozenset(') or t.startswith('set(')
+    if bare_set or not t or t[0] not in '[({':
+      return False
+    found = True
+  return found
+
+
 def rename_table_order_only(x, y):
   """Same documents, same actions as multisets; the replies differ only in the ORDER of their actions and a
   RenameTable is among the displaced ones (useractions._updateColumnRecords iterates the SET rename_summary_tables)."""
@@ -293,7 +344,10 @@ def compare_full(hist, sa, sb):
   i, x, y = d
   kind = 'cross-process-mismatch'
   if set_repr_only(x, y):
-    kind = 'set_repr_in_text_column' if only_text_columns_differ(x, y) else 'set_repr_in_unmarshallable_value'
+    if set_nested_in_container_text(x, y):
+      kind = 'set_nested_in_container_text'
+    else:
+      kind = 'set_repr_in_text_column' if only_text_columns_differ(x, y) else 'set_repr_in_unmarshallable_value'
   elif list_order_only(x, y) and choicelist_order(x, y):
     kind = 'set_to_choicelist_order'
   elif rename_table_order_only(x, y):
